@@ -19,6 +19,7 @@ import (
 	"tunnox-core/internal/cloud/repos"
 	"tunnox-core/internal/constants"
 	"tunnox-core/internal/core/idgen"
+	"tunnox-core/internal/core/storage"
 	"tunnox-core/internal/core/storage/memory"
 	vk "tunnox-core/internal/verifkit"
 )
@@ -183,19 +184,35 @@ var c17AddrSeq atomic.Int64
 // manager and port-mapping service, as separate server processes would have) over one
 // shared store.
 func c17NewQWorld(codeQuota, mapQuota, nodes int) *c17QWorld {
+	return c17NewQWorldOn("memory", codeQuota, mapQuota, nodes)
+}
+
+// c17NewQWorldOn: backend "memory" = all nodes on one store; "hybrid" = the clustered
+// deployment: every node has its own HybridStorage (own local memory cache + the cluster's
+// ONE shared cache, no database) with the default prefix routing. w.mem / w.g are the
+// shared tier in both cases.
+func c17NewQWorldOn(backend string, codeQuota, mapQuota, nodes int) *c17QWorld {
 	ctx, cancel := context.WithCancel(context.Background())
 	w := &c17QWorld{cancel: cancel}
 	w.mem = memory.New(ctx)
-	w.g = vk.NewGated("mem", w.mem)
+	tier := "mem"
+	if backend == "hybrid" {
+		tier = "shared"
+	}
+	w.g = vk.NewGated(tier, w.mem)
 	w.g.SetHook(nil)
 	if nodes < 1 {
 		nodes = 1
 	}
 	for i := 0; i < nodes; i++ {
-		repo := repos.NewRepository(w.g)
+		var st storage.Storage = w.g
+		if backend == "hybrid" {
+			st = storage.NewHybridStorageWithSharedCache(ctx, memory.New(ctx), w.g, nil, nil)
+		}
+		repo := repos.NewRepository(st)
 		ccRepo := repos.NewConnectionCodeRepository(repo)
 		pmRepo := repos.NewPortMappingRepo(repo)
-		idm := idgen.NewIDManager(w.g, ctx)
+		idm := idgen.NewIDManager(st, ctx)
 		pmSvc := NewPortMappingService(pmRepo, idm, nil, ctx)
 		svc := NewConnectionCodeService(ccRepo, pmSvc, pmRepo,
 			&ConnectionCodeServiceConfig{MaxActiveCodesPerClient: codeQuota, MaxActiveMappingsPerClient: mapQuota}, ctx)
@@ -286,6 +303,7 @@ type c17QCase struct {
 	Mode    string `json:"mode"` // hold | free | sched | explore
 	Nodes   int    `json:"nodes"`
 	Readers int    `json:"concurrent_readers,omitempty"`
+	Backend string `json:"backend,omitempty"` // "" = one memory store | hybrid = per-node HybridStorage over one shared cache
 }
 
 type c17QOutcome struct {
@@ -493,6 +511,169 @@ func c17IndexWritersTrial(run *vk.Run, Q int, outer string, j int) int {
 	return ops
 }
 
+// c17SequentialNodesTrial: strictly sequential requests of one client, served by the
+// nodes of a clustered deployment in turn (each node behind its own tiered storage over
+// the cluster's shared cache). Oracle: a request made while the client's usable entries
+// in the shared store have reached the quota is refused, whichever node serves it.
+func c17SequentialNodesTrial(run *vk.Run, kind string, Q, nodes, firstNode int) {
+	cs := c17QCase{Kind: kind, Quota: Q, N: 0, Mode: "sequential-across-nodes", Nodes: nodes, Backend: "hybrid", Need: firstNode}
+	var w *c17QWorld
+	if kind == "code-quota" {
+		w = c17NewQWorldOn("hybrid", Q, 1000, nodes)
+	} else {
+		w = c17NewQWorldOn("hybrid", 1000, Q, nodes)
+	}
+	defer w.close()
+	run.Case(kind+"-sequential-nodes", cs)
+	type step struct {
+		Node     int  `json:"node"`
+		Before   int  `json:"usable_before"`
+		Admitted bool `json:"admitted"`
+	}
+	var steps []step
+	for i := 0; i < Q+3; i++ {
+		node := (firstNode + i) % nodes
+		var req func() error
+		if kind == "code-quota" {
+			req = func() error { _, err := w.createCodeOn(node, c17Target); return err }
+		} else {
+			c, err := w.createCodeOn(node, c17Target+9000+int64(i))
+			if err != nil {
+				run.Count(kind+"_prefill_refused", 1)
+				return
+			}
+			code := c.Code
+			req = func() error { _, err := w.activateOn(node, code, c17Listen); return err }
+		}
+		before := w.usable(cs)
+		err := req()
+		steps = append(steps, step{Node: node, Before: before, Admitted: err == nil})
+		if err == nil && before >= Q {
+			run.Violation("C17:"+kind+"|exceeded|sequential-across-nodes", map[string]any{"case": cs, "requests": steps, "usable_after": w.usable(cs), "quota": Q})
+			break
+		}
+		if err == nil {
+			run.Count(kind+"_sequential_nodes_admitted", 1)
+		} else if before >= Q {
+			run.Count(kind+"_sequential_nodes_refused_at_quota", 1)
+		} else {
+			run.Count(kind+"_sequential_nodes_refused_below_quota", 1) // not judged (no liveness claim)
+		}
+	}
+	run.Eval(1)
+	run.Distinct(fmt.Sprintf("%s|sequential-nodes|Q%d|n%d|first%d|usable%d", kind, Q, nodes, firstNode, w.usable(cs)))
+}
+
+// c17ClaimHeldTrial (code quota): the owner is at his quota; an activation of one of his
+// codes is held right after it took the code's one-time claim; meanwhile the owner asks
+// for one more code; then the held activation is made to fail (the write of the mapping
+// record fails once) and is released, which gives the code back. Oracle at quiescence:
+// usable (unexpired, unrevoked, unactivated) codes of the owner in the store <= quota.
+func c17ClaimHeldTrial(run *vk.Run, Q int, backend string) {
+	nodes := 1
+	if backend == "hybrid" {
+		nodes = 2
+	}
+	cs := c17QCase{Kind: "code-quota", Quota: Q, Prefill: Q, N: 1, Mode: "activation-claim-held", Nodes: 1, Backend: backend}
+	w := c17NewQWorldOn(backend, Q, 1000, nodes)
+	defer w.close()
+	var codes []string
+	for i := 0; i < Q; i++ {
+		c, err := w.createCode(c17Target)
+		if err != nil {
+			run.Count("code-quota_prefill_refused", 1)
+			return
+		}
+		codes = append(codes, c.Code)
+	}
+	run.Case("code-quota-claim-held", cs)
+	var phase atomic.Int32 // 0 wait for the claim, 1 claim taken, 2 holder parked, 3 fault armed, 4 fault done
+	parked := make(chan struct{})
+	resume := make(chan struct{})
+	var faultKey string
+	w.g.SetHook(func(tier, op, key string) error {
+		switch phase.Load() {
+		case 0:
+			if strings.HasPrefix(key, constants.KeyPrefixRuntimeConnectionCodeClaim) && c17IsWrite(op) {
+				phase.Store(1) // this operation takes the claim
+			}
+		case 1:
+			if phase.CompareAndSwap(1, 2) { // first operation after the claim: hold the activation here
+				close(parked)
+				select {
+				case <-resume:
+				case <-time.After(c17Watchdog):
+				}
+			}
+		case 3:
+			if c17IsWrite(op) && strings.HasPrefix(key, constants.KeyPrefixPortMapping+":") && phase.CompareAndSwap(3, 4) {
+				faultKey = op + ":" + key
+				return vk.ErrInjected
+			}
+		}
+		return nil
+	})
+	actErr := make(chan error, 1)
+	// the activating client's id falls into another lock stripe than the owner's, so the owner's
+	// request is not serialised behind the suspended activation by the node-local quota lock
+	const activator = c17Listen + 1
+	go func() { _, err := w.activateOn(nodes-1, codes[0], activator); actErr <- err }()
+	select {
+	case <-parked:
+	case err := <-actErr:
+		w.g.SetHook(nil)
+		run.Count("code-quota_claim_hold_not_reached", 1)
+		_ = err
+		return
+	case <-time.After(c17Watchdog):
+		w.g.SetHook(nil)
+		run.Count("watchdog", 1)
+		return
+	}
+	// the activation holds the claim and is suspended; the owner asks for one more code
+	createDone := make(chan error, 1)
+	go func() { _, err := w.createCode(c17Target); createDone <- err }()
+	var createErr error
+	createPending := false
+	select {
+	case createErr = <-createDone:
+	case <-time.After(50 * time.Millisecond): // serialised behind the suspended activation: let that one go on
+		createPending = true
+		run.Count("code-quota_claim_held_create_blocked_behind_activation", 1)
+	}
+	phase.Store(3)
+	close(resume)
+	var aerr error
+	select {
+	case aerr = <-actErr:
+	case <-time.After(c17Watchdog):
+		w.g.SetHook(nil)
+		run.Count("watchdog", 1)
+		return
+	}
+	if createPending {
+		select {
+		case createErr = <-createDone:
+		case <-time.After(c17Watchdog):
+			w.g.SetHook(nil)
+			run.Count("watchdog", 1)
+			return
+		}
+	}
+	w.g.SetHook(nil)
+	usable := w.usable(cs)
+	run.Eval(1)
+	run.Count("code-quota_claim_held_trials", 1)
+	if aerr != nil {
+		run.Count("code-quota_claim_held_activation_failed", 1)
+	}
+	run.Distinct(fmt.Sprintf("code-quota|claim-held|%s|Q%d|create=%v|act=%v|usable%d", backend, Q, createErr == nil, aerr == nil, usable))
+	if usable > Q {
+		run.Violation("C17:code-quota|exceeded|code-issued-while-activation-claim-held", map[string]any{"case": cs, "create_admitted_while_claim_held": createErr == nil,
+			"held_activation_error": fmt.Sprint(aerr), "fault_at": faultKey, "usable_codes_of_owner_in_store": usable, "quota": Q})
+	}
+}
+
 // c17ReadFaultTrial: the client is exactly at its quota; one more request is made while
 // the k-th storage READ of that request fails once (vk.ErrInjected). Oracle: a request
 // that fails leaves the store byte-identical; for the code quota (whose count aborts on
@@ -678,7 +859,7 @@ func c17Judge(run *vk.Run, w *c17QWorld, cs c17QCase, errs []error, inWindow int
 	if refused > 0 {
 		run.Count(pre+"refusals_seen", int64(refused))
 	}
-	run.Distinct(fmt.Sprintf("%s|%s|nodes%d|Q%d|P%d|N%d|K%d|adm%d|win%d", cs.Kind, cs.Mode, cs.Nodes, cs.Quota, cs.Prefill, cs.N, cs.Need, admitted, inWindow))
+	run.Distinct(fmt.Sprintf("%s|%s%s|nodes%d|Q%d|P%d|N%d|K%d|adm%d|win%d", cs.Kind, cs.Mode, cs.Backend, cs.Nodes, cs.Quota, cs.Prefill, cs.N, cs.Need, admitted, inWindow))
 	if cs.Nodes > 1 {
 		run.Count(pre+"cross_node_trials", 1)
 	}
@@ -705,6 +886,18 @@ func c17Judge(run *vk.Run, w *c17QWorld, cs c17QCase, errs []error, inWindow int
 		err := probe()
 		after := w.snapshot()
 		if err == nil {
+			if active == cs.Quota && cs.Backend == "hybrid" && cs.Nodes > 1 {
+				// After a CONCURRENT burst through two nodes with tiered storage, node 0 may count
+				// from an index that lost one of the concurrent appends (list update across
+				// tiers: properties C13/C14) and admit this request. The strictly sequential
+				// multi-node case is judged by c17SequentialNodesTrial; here it is recorded only.
+				if run.Counter(pre+"hybrid_probe_admitted_after_concurrent_cross_node_burst") == 0 {
+					run.Observe(pre+"hybrid_probe_admitted_first", map[string]any{"outcome": out, "active_after_probe": w.active(cs),
+						"service_count_node0": w.activeMappings(c17Listen), "usable_in_shared_store": w.usable(cs)})
+				}
+				run.Count(pre+"hybrid_probe_admitted_after_concurrent_cross_node_burst", 1)
+				return
+			}
 			if active == cs.Quota {
 				run.Violation(c17Sig(cs, "exceeded|sequential-at-quota"), map[string]any{"outcome": out, "active_after_probe": w.active(cs)})
 			}
@@ -724,9 +917,9 @@ func c17Judge(run *vk.Run, w *c17QWorld, cs c17QCase, errs []error, inWindow int
 func c17HoldTrial(run *vk.Run, cs c17QCase) {
 	var w *c17QWorld
 	if cs.Kind == "code-quota" {
-		w = c17NewQWorld(cs.Quota, 1000, cs.Nodes)
+		w = c17NewQWorldOn(cs.Backend, cs.Quota, 1000, cs.Nodes)
 	} else {
-		w = c17NewQWorld(1000, cs.Quota, cs.Nodes)
+		w = c17NewQWorldOn(cs.Backend, 1000, cs.Quota, cs.Nodes)
 	}
 	defer w.close()
 	reqs, probes, ok := c17Setup(w, cs)
@@ -880,6 +1073,7 @@ func c17QuotaMonitor(t *testing.T, kind, name string) {
 	run.Rule(what + " with quota Q in {1,2,5}: fill to Q-1 (or Q-2), then N in {2,8,32} concurrent requests. mode hold: each request is held at its first mutating storage operation until K in {2..N} requests are there; " +
 		"mode free: spin barrier only; mode sched: every storage operation is a gate of vk.Sched with a seeded random chooser (N in {2,8}); mode explore: N=2, all schedules with <=2 (thorough: 3) preemptions (capped by runs and by total scheduling steps); 1 in 5 trials places the racers on two service nodes sharing the store. " +
 		"interposed-read: one admission with a lock-free read request of the same client (list codes / list mappings, node 0 or 1) served before its j-th storage operation, for every j, then admissions until refused; half of the sched trials add such a reader thread. " +
+		"sequential-across-nodes: Q+3 strictly sequential requests served in turn by 2-3 nodes that each sit behind their own HybridStorage (local cache + one shared cache, default prefix routing); claim-held (code quota): owner at quota, an activation of one of his codes suspended after taking the claim, one more code requested, then the activation fails on the mapping write and is released; 1 in 10 hold trials uses the hybrid deployment. " +
 		"index-writers (mapping quota): X's activation and the activation by Y of a code whose target is X, one suspended before each of its storage operations while the other completes, then X activates until refused; read-fault: at the quota, one more request whose k-th storage read fails once, every k. " +
 		"The quota is judged on max(service count, usable records found in the store). distinct = (mode, Q, prefill, N, K, admitted, racers between count and record) and schedule fingerprints")
 	pre := kind + "_"
@@ -890,6 +1084,10 @@ func c17QuotaMonitor(t *testing.T, kind, name string) {
 	run.Floor(pre+"seq_refusals_checked", 50)
 	run.Floor(pre+"interposed_positions", 20)
 	run.Floor(pre+"read_faults_injected", 5)
+	run.Floor(pre+"sequential_nodes_refused_at_quota", 10)
+	if kind == "code-quota" {
+		run.Floor("code-quota_claim_held_activation_failed", 3)
+	}
 	if kind == "mapping-quota" {
 		run.Floor("mapping-quota_index_writer_positions", 20)
 	}
@@ -904,6 +1102,9 @@ func c17QuotaMonitor(t *testing.T, kind, name string) {
 				cs := c17QCase{Kind: kind, Quota: Q, N: N, Mode: "hold", Prefill: Q - 1, Nodes: 1}
 				if rep%5 == 4 {
 					cs.Nodes = 2 // racers alternate between two service instances on the shared store
+					if rep%10 == 9 {
+						cs.Backend = "hybrid" // ... each behind its own tiered storage
+					}
 				}
 				if Q >= 2 && rep%4 == 3 {
 					cs.Prefill = Q - 2
@@ -946,6 +1147,21 @@ func c17QuotaMonitor(t *testing.T, kind, name string) {
 				for j := 0; j < ops && j < 60 && run.Violations() < 20; j++ {
 					c17IndexWritersTrial(run, Q, outer, j)
 				}
+			}
+		}
+	}
+	// clustered deployment (per-node tiered storage over one shared cache): strictly sequential requests through the nodes in turn
+	for _, Q := range []int{1, 2, 3} {
+		for _, nodes := range []int{2, 3} {
+			for first := 0; first < nodes; first++ {
+				c17SequentialNodesTrial(run, kind, Q, nodes, first)
+			}
+		}
+	}
+	if kind == "code-quota" {
+		for _, Q := range []int{1, 2, 3} {
+			for _, backend := range []string{"memory", "hybrid"} {
+				c17ClaimHeldTrial(run, Q, backend)
 			}
 		}
 	}
